@@ -110,7 +110,7 @@ Qed.
 
 Lemma nf_calcs :
   (forall st l r, nofuel (add_nodes st l r)) /\ (forall st l r, nofuel (lift2 sub_nodes st l r)) /\
-  (forall st l r, nofuel (lift2 mul_nodes st l r)) /\ (forall st l r, nofuel (lift2 mod_nodes st l r)) /\
+  (forall fl st l r, nofuel (lift2 (mul_nodes fl) st l r)) /\ (forall st l r, nofuel (lift2 mod_nodes st l r)) /\
   (forall fl st l r, nofuel (eq_nodes fl st l r)) /\ (forall a b st l r, nofuel (cmp_nodes a b st l r)) /\
   (forall st l r, nofuel (bool_calc st l r)) /\ (forall st l r, nofuel (alt_calc st l r)) /\
   (forall st l r, nofuel (lift2 contains_calc st l r)) /\ (forall st l r, nofuel (lift2 pair_calc st l r)) /\
